@@ -240,6 +240,11 @@ func (x *Exec) doCall(st *State, fr *Frame, at ssa.Instruction, cc *ssa.CallComm
 			return true
 		}
 	}
+	if fc != nil && fc.Callback != "" {
+		if x.doCallback(st, fr, fc, callee, fn, sig, args, resTypes, retTo, ev, at, kind) {
+			return true
+		}
+	}
 	if fc != nil && !fc.Inline {
 		rets := x.applyContract(st, fr, fc, callee, fn, sig, cc, args, resTypes, at)
 		x.setRet(st, fr, retTo, rets, ev)
@@ -646,3 +651,57 @@ func (x *Exec) copyOp(st *State, d, s Val, dT, sT types.Type) Term {
 var libPathRe = regexp.MustCompile(`[A-Za-z0-9_.\-]+/`)
 
 func shortLib(name string) string { return libPathRe.ReplaceAllString(name, "") }
+
+// doCallback models a higher-order library function that calls a function-typed argument any number
+// of times (filepath.Walk, cache.Iterate): the state is havocked by the effects of the callback, then
+// either the callee returns or one more (arbitrary) invocation of the callback is executed in the
+// context of the caller, followed by another havoc. Obligations inside the callback are those of the
+// function under verification; names resolve lexically through the enclosing frames.
+func (x *Exec) doCallback(st *State, fr *Frame, fc *FuncContract, callee string, fn *ssa.Function, sig *types.Signature, args []Val, resTypes []types.Type, retTo ssa.Value, ev int, at ssa.Instruction, kind string) bool {
+	idx := -1
+	if fn != nil {
+		for i, p := range fn.Params {
+			if p.Name() == fc.Callback {
+				idx = i
+			}
+		}
+	} else {
+		off := 0
+		if sig.Recv() != nil {
+			off = 1
+		}
+		for i := 0; i < sig.Params().Len(); i++ {
+			if sig.Params().At(i).Name() == fc.Callback {
+				idx = i + off
+			}
+		}
+	}
+	if idx < 0 || idx >= len(args) || args[idx].K != KClosure || len(args[idx].Fn.Blocks) == 0 || len(st.frames) >= 5 {
+		return false
+	}
+	cl := args[idx]
+	x.trust("callback " + callee + " runs its argument " + fc.Callback + " in the caller's context (one arbitrary invocation between havocs)")
+	eff := newEffect()
+	eff.merge(x.P.funcEffects(cl.Fn, 0))
+	x.havocEffect(st, fr, eff)
+	x.havocCaptured(st, cl)
+	fresh := func(s *State) []Val {
+		var rets []Val
+		for i, rt := range resTypes {
+			rets = append(rets, x.freshVal(s, rt, fmt.Sprintf("ret!%s!%d", shortName(callee), i)))
+		}
+		return rets
+	}
+	// continuation A: no further invocation
+	x.sess.Push()
+	st2 := st.clone()
+	x.setRet(st2, st2.top(), retTo, fresh(st2), ev)
+	x.run(st2)
+	x.popScope()
+	// continuation B: one arbitrary invocation, havoc, return
+	nf := x.newFrame(st, cl.Fn, nil, nil, cl.Binds)
+	nf.eventIdx = -1
+	nf.cbEffect, nf.cbClosure, nf.cbRetTo, nf.cbResTypes, nf.cbCallee = eff, cl, retTo, resTypes, callee
+	st.frames = append(st.frames, nf)
+	return true
+}
